@@ -507,7 +507,7 @@ pub fn tables_to_json(t: &Tables) -> Value {
         .iter()
         .map(|(k, v)| (k.clone(), json!(v)))
         .collect();
-    json!({"markers": markers, "attrs": attrs, "marker_required_attrs": t.marker_required_attrs.iter().cloned().collect::<Vec<_>>()})
+    json!({"markers": markers, "attrs": attrs, "marker_required_attrs": t.marker_required_attrs.iter().cloned().collect::<Vec<_>>(), "marker_status": t.marker_status})
 }
 
 pub fn tables_from_json(v: &Value) -> Tables {
@@ -520,6 +520,13 @@ pub fn tables_from_json(v: &Value) -> Tables {
                 _ => crate::chain::MarkerKind::NoMarker,
             };
             t.markers.insert(k.clone(), kind);
+        }
+    }
+    if let Some(m) = v.get("marker_status").and_then(|x| x.as_object()) {
+        for (d, st) in m {
+            if let Some(n) = st.as_i64() {
+                t.marker_status.insert(d.clone(), n as i32);
+            }
         }
     }
     if let Some(a) = v.get("marker_required_attrs").and_then(|x| x.as_array()) {
